@@ -106,6 +106,14 @@ class Report:
             return 'violated', s.model()
         self.unknown(name, 'solver: ' + s.reason_unknown()); return 'unknown', None
 
+def parts(rep, fns):
+    """run independent parts of a check; a part that cannot be encoded makes the run inconclusive without hiding the others"""
+    for f in fns:
+        try: f()
+        except Exception as e:
+            traceback.print_exc()
+            rep.errors.append('%s: %s' % (type(e).__name__, str(e)[:300]))
+
 def model_to_json(model):
     out = {}
     if model is None: return out
